@@ -142,7 +142,7 @@ def tokenisation(ob_):
                 return {"verdict": "error", "error": {"error": "planted query for class %s is not sat: encoding is vacuous" % name}, "queries": nq}
             for qname, q in queries:
                 sol = z3.Solver()
-                sol.set("timeout", 30000)
+                sol.set("timeout", 120000)
                 sol.add(*base)
                 sol.add(q)
                 nq += 1
@@ -305,7 +305,7 @@ def obligations(tier):
         for cls in ("integer", "float", "true", "false", "null", "dquoted", "squoted", "yaql", "jinja"):
             d = dict(o)
             d["id"] = "C20.e3.tokenisation." + cls
-            d["params"] = {"maxlen": 10 if cls in ("yaql", "jinja") else 12, "cls": cls}
+            d["params"] = {"maxlen": 9 if cls in ("yaql", "jinja") else 12, "cls": cls}
             obs.append(d)
     obs.append({"id": "C20.e3.values", "prop": "C20", "kind": "e3", "body": "vt.harness.C20:values", "params": {"per_class": 30 if tier == "quick" else 120}, "fixed": {}, "timeout": 1800})
     for kind, n in [("action", len(VALUES)), ("publish", len(VALUES)), ("publish-dup", 6), ("do", 4), ("with", 2), ("continue", 1)]:
